@@ -38,29 +38,38 @@ def read_traces(paths):
     return traces
 
 
-def judge(ctx, traces, mode, batch, counts):
-    """Validate traces strictly; name rejected ones (second pass under the defect model)."""
-    states, accepted = 0, []
-    for i in range(0, len(traces), batch):
-        part = traces[i:i + batch]
-        rej, st = tvlib.validate(ctx, "wallet/TraceKeeper", "cfg/TraceKeeper.strict.cfg", part, reset=RESET,
-                                 tag="trace-" + mode, timeout=1700, heap="8g")
+def judge(ctx, groups, batch, counts):
+    """groups: list of (mode, traces). Validate all traces strictly (one TLC run per batch, modes mixed);
+    the rejected ones are validated once more under the defect model, only to name the violation.
+    Returns (states, {mode: accepted traces})."""
+    flat = [(mode, tr) for mode, trs in groups for tr in trs]
+    states, rejected = 0, []
+    accepted = {mode: [] for mode, _ in groups}
+    for i in range(0, len(flat), batch):
+        part = flat[i:i + batch]
+        rej, st = tvlib.validate(ctx, "wallet/TraceKeeper", "cfg/TraceKeeper.strict.cfg", [t for _, t in part], reset=RESET,
+                                 tag="trace", timeout=1700, heap="8g")
         states += st
         bad = dict(rej)
-        accepted += [part[ti] for ti in range(len(part)) if ti not in bad]
-        if not rej:
-            continue
-        order = sorted(bad)
-        rej2, st2 = tvlib.validate(ctx, "wallet/TraceKeeper", "cfg/TraceKeeper.dup.cfg", [part[ti] for ti in order],
-                                   reset=RESET, tag="classify-" + mode, timeout=1700, heap="8g")
+        for ti, (mode, tr) in enumerate(part):
+            if ti in bad:
+                rejected.append((mode, tr, bad[ti]))
+            else:
+                accepted[mode].append(tr)
+    for i in range(0, len(rejected), batch):
+        part = rejected[i:i + batch]
+        rej2, st2 = tvlib.validate(ctx, "wallet/TraceKeeper", "cfg/TraceKeeper.dup.cfg", [t for _, t, _ in part],
+                                   reset=RESET, tag="classify", timeout=1700, heap="8g")
         states += st2
-        still = {order[j]: k for j, k in rej2}
-        for ti in order:
-            tr, k = part[ti], bad[ti]
-            e = tr[k] if k < len(tr) else {"op": "trace", "err": "incomplete", "utxos": []}
+        still = dict(rej2)
+        for ti, (mode, tr, k) in enumerate(part):
+            e = tr[k] if k < len(tr) else {"op": "trace", "ev": "", "err": "incomplete", "utxos": []}
             if ti not in still:
-                dup = len(set(e.get("utxos", []))) < len(e.get("utxos", []))
-                sig = "%s:%s:overlap-counted-twice:%s" % (mode, e["op"], "same-output-twice-in-reservation" if dup else "totals")
+                # the defect model differs from the property only in Reserve; in a concurrent trace the first
+                # unexplainable line need not be the offending call, so the whole trace is inspected
+                evs = [e] if mode == "seq" else tr
+                dup = any(len(set(x.get("utxos", []))) < len(x.get("utxos", [])) for x in evs)
+                sig = "%s:reserve:overlap-counted-twice:%s" % (mode, "same-output-twice-in-reservation" if dup else "totals")
             else:
                 sig = "%s:%s:%s" % (mode, e["op"] or e["ev"], e["err"] or "ok")
             counts[sig] = counts.get(sig, 0) + 1
@@ -84,7 +93,6 @@ def run(ctx):
     if len(traces) != int(s.get("traces", -1)) or len(traces) < 3000:
         raise Infra("sequential driver produced %d traces, summary says %s" % (len(traces), s.get("traces")))
     counts = {}
-    st1, acc1 = judge(ctx, traces, "seq", 8000 if quick else 12000, counts)
     # ---- concurrent
     nconc = 200 if quick else 3000
     cprefix = os.path.join(ctx.work, "conc")
@@ -92,7 +100,8 @@ def run(ctx):
     ctraces = [t for t in read_traces(sorted(glob.glob(cprefix + ".*.ndjson"))) if t and t[-1]["ev"] == "snap"]
     if len(ctraces) != nconc and not hc["violations"]:
         raise Infra("concurrent driver produced %d of %d traces" % (len(ctraces), nconc))
-    st2, acc2 = judge(ctx, ctraces, "conc", 1000, counts)
+    st1, acc = judge(ctx, [("seq", traces), ("conc", ctraces)], 10000 if quick else 20000, counts)
+    st2, acc1, acc2 = 0, acc["seq"], acc["conc"]
     # ---- negative controls: a wrong change / a wrong table entry must be rejected
     ctl = []
     for tr in acc1:
